@@ -373,7 +373,7 @@ def build_instances(case):
       top.elaborate()
       return top
     return make
-  if fam in ("ifcgen", "paramgen"):
+  if fam in ("ifcgen", "paramgen", "structport"):
     src = case["src"]
   else:
     src = PROBES[case["name"]].format(uid=case["uid"])
@@ -399,6 +399,12 @@ def gen_case(R, tier, backend, profile="translatable"):
     from ..gen import ifcrtl
     src, gst = ifcrtl.gen(c, base["uid"])
     base.update(family="ifcgen", name="ifcgen", src=src, gen_stats=gst, ncycles=inp.randint(6, 14), resets=[])
+  elif 0.16 <= r < 0.20:
+    # layout of struct-typed ports: nested structs / list fields with non-alphabetical field names, the
+    # packed value assigned to a Bits port, passed through, read leaf by leaf
+    from ..gen import structports
+    src, gst = structports.gen(c, base["uid"])
+    base.update(family="structport", name="structport", src=src, gen_stats=gst, ncycles=inp.randint(6, 12), resets=[])
   elif r < 0.16:
     # several instances of parametrised classes at colliding / defaulted / keyword / set_param values
     # (the designs C13 uses for aliasing): a shared module body shows up here as a wrong output
